@@ -18,6 +18,10 @@ pub fn to_f64(v: &Value) -> f64 {
     if q == -7 {
         return if p > 0 { 1e-7 } else { -1e-7 };
     }
+    // magnitude token: +-1e30, the value MPS writers conventionally use for "infinity" -- a FINITE number here
+    if q == -30 {
+        return if p > 0 { 1e30 } else { -1e30 };
+    }
     if q == 0 {
         return if p > 0 {
             f64::INFINITY
@@ -49,6 +53,12 @@ pub fn from_f64(x: f64) -> Value {
     }
     if x == 1e-7 {
         return json!([1, -7]);
+    }
+    if x == 1e30 {
+        return json!([1, -30]);
+    }
+    if x == -1e30 {
+        return json!([-1, -30]);
     }
     if x == -1e-7 {
         return json!([-1, -7]);
